@@ -789,6 +789,69 @@ for _g in BAD:
     globals()[_nm] = _f
     CONDITIONS.append({"fn": _nm, "quick": 60, "thorough": 200, "sel_only": True})
 
+# ---- R4: resource limits reached while rendering are Liquid errors like any other: suppressed in LAX, reported once or
+# more in WARN, wherever in the template the limit is crossed (top-level text, text in a block, output, partial) --------
+LIM_PART = {"lp": "partial-text{{ x }}", "lq": "{% for i in xs %}{{ i }}{% endfor %}", "lr": "{% include 'lr' %}"}
+LIM_SRC = [
+    "top-level literal text {{ x }} and more literal text after it",
+    "{% if true %}literal text in a block{% endif %}{{ x }}tail",
+    "{{ xs | join: '-' }}{{ x }}{{ x }}{{ x }}",
+    "a{% include 'lp' %}b{% render 'lp', x: x %}c",
+    "{% for i in xs %}{% for j in xs %}{{ i }}{{ j }}{% endfor %}{% endfor %}done",
+    "{% assign a = xs | join: 'aaaa' %}{% assign b = a | append: a %}{% capture c %}{{ b }}{{ b }}{% endcapture %}ok",
+    "{% render 'lq', xs: xs %}|{% tablerow i in xs %}{{ i }}{% endtablerow %}",
+    "x{% include 'lr' %}y",
+    "{% capture c %}captured text that is long enough{% endcapture %}short",
+    "{% liquid echo 'from liquid tag'\n echo x %}literal",
+]
+LIM_KIND = ("output_stream_limit", "loop_iteration_limit", "local_namespace_limit", "context_depth_limit")
+LIM_VALUES = {0: (0, 1, 5, 12, 30), 1: (0, 1, 3, 8, 100), 2: (0, 60, 120, 400, 5000), 3: (6, 8, 10, 15, 30)}
+_LENVS = {}
+
+
+def lim_env(mode, kind, value):
+    key = (mode, kind, value)
+    if key not in _LENVS:
+        cls = type("LimEnv", (Environment,), {LIM_KIND[kind]: value})
+        _LENVS[key] = cls(extra=True, tolerance=mode, loader=DictLoader(LIM_PART))
+    return _LENVS[key]
+
+
+def lim_case(k, kind, vi, n):
+    value = LIM_VALUES[kind][vi]
+    data = {"x": "X", "xs": list(range(n))}
+    out = {}
+    for mode in (Mode.LAX, Mode.WARN, Mode.STRICT):
+        res, seen = watch(lambda: lim_env(mode, kind, value).from_string(LIM_SRC[k]).render(**data))
+        out[mode] = (res[0], res[1] if res[0] == "ok" else type(res[1]).__name__, len(seen))
+    return out
+
+
+def lim_ok(o):
+    lax, warn, strict = o[Mode.LAX], o[Mode.WARN], o[Mode.STRICT]
+    if lax[0] != "ok" or warn[0] != "ok" or lax[1] != warn[1] or lax[2] != 0:
+        return False
+    if strict[0] == "ok":
+        # nothing to suppress: all three agree and WARN is silent
+        return strict[1] == lax[1] and warn[2] == 0
+    return warn[2] >= 1
+
+
+def c03_r4_limits(k: int, kind: int, vi: int, n: int) -> bool:
+    """
+    pre: 0 <= k <= 9 and 0 <= kind <= 3 and 0 <= vi <= 4 and 0 <= n <= 3
+    post: _
+    """
+    if excluded("c03_r4_limits", locals()):
+        return True
+    ck, ckind, cvi, cn = conc(k, 10), conc(kind, 4), conc(vi, 5), conc(n, 4)
+    return finish(untraced(lambda: lim_ok(lim_case(ck, ckind, cvi, cn))))
+
+
+DETAIL["c03_r4_limits"] = lambda k, kind, vi, n: {"source": LIM_SRC[k], LIM_KIND[kind]: LIM_VALUES[kind][vi], "xs": list(range(n)),
+                                                   "lax/warn/strict (status, output or error, warnings)": [lim_case(k, kind, vi, n)[m] for m in (Mode.LAX, Mode.WARN, Mode.STRICT)]}
+CONDITIONS.append({"fn": "c03_r4_limits", "quick": 90, "thorough": 200, "sel_only": True})
+
 ASSUMPTIONS = [
     "R1: template sources are concrete valid skeletons (SKEL, SKEL_X); x, y : None | bool | int (-1..9) | str (<= 2 chars over 'a1 '), list length 0..3 are symbolic; the three environments differ only in `tolerance`",
     "R1 asserts for LAX/WARN only what the statement says: no LiquidError escapes; other exception classes are C02's subject and only have to agree between LAX and WARN",
@@ -797,6 +860,7 @@ ASSUMPTIONS = [
     "warnings are observed with warnings.catch_warnings(record=True) + simplefilter('always') inside each condition",
 ]
 OUTSIDE = [
+    "context_depth_limit below 4 (the outermost scope of any render is already deeper: nothing renders in any mode)",
     "sources the template lexer itself rejects (they raise in every mode by design)",
     "non-Liquid exceptions raised while rendering (C02)",
     "custom tags other than the harness stubs; custom loaders; async rendering",
